@@ -51,7 +51,8 @@ for n in ns:
         print(out["id"], "PATCH DOES NOT APPLY", r.stderr[:200]); continue
     b = sh("go build ./...", cwd=wt + "/teamserver")
     out["builds"] = b.returncode == 0
-    d1 = sh("sh %s/demo/run.sh" % sd, cwd=wt, timeout=1800)
+    runsh = sd + "/demo/run.sh" if os.path.exists(sd + "/demo/run.sh") else sd + "/run.sh"
+    d1 = sh("sh %s" % runsh, cwd=wt, timeout=1800)
     out["demo_with_change_rc"] = d1.returncode
     out["demo_with_change_tail"] = (d1.stdout + d1.stderr)[-600:]
     if not a.skip_suite:
@@ -67,7 +68,7 @@ for n in ns:
     out["checks"] = checks
     sh("git apply -R %s/patch.diff" % sd, cwd=wt)
     sh("git checkout -- . && git clean -fdq -e SEED", cwd=wt)
-    d0 = sh("sh %s/demo/run.sh" % sd, cwd=wt, timeout=1800)
+    d0 = sh("sh %s" % runsh, cwd=wt, timeout=1800)
     out["demo_without_change_rc"] = d0.returncode
     out["confirmed"] = bool(out["builds"] and d1.returncode != 0 and d0.returncode == 0 and out.get("suite_unchanged", True))
     out["caught_by"] = [c for c, v in checks.items() if v["rc"] == 1]
@@ -77,6 +78,8 @@ for n in ns:
     shutil.copy(sd + "/patch.diff", dst + "/patch.diff")
     if os.path.isdir(sd + "/demo"):
         shutil.copytree(sd + "/demo", dst + "/demo")
+    if os.path.exists(sd + "/run.sh"):
+        shutil.copy(sd + "/run.sh", dst + "/run.sh")
     json.dump({"property": PID, "breaks": meta.get("summary"), "needs_to_manifest": meta.get("needs_to_manifest"),
                "files_touched": meta.get("files_touched"), "how_to_run_demo": meta.get("how_to_run_demo"),
                "what_we_ran": "tools/seed_eval.py: git apply in a scratch worktree, go build, demo with the change (rc=%s) and without (rc=%s), pinned suite compared with BASELINE stable_pass, ./check with VERIF_TS_DIR pointing at the changed tree" % (d1.returncode, d0.returncode),
